@@ -8,16 +8,30 @@
   custom_values)`), the composition `recovery = identity ⊕ symmetry stage ⊕ cluster stage` of both decoders, and the
   soundness of the monitor that the harness evaluates on every real decoder output.
 
-  NOT MODELLED (explored by the harness with the monitor below, exhaustively over `reachable` for the smallest
-  lattices): the matching-graph construction, the minimum-weight perfect matching (`gt.mwpm`) and the clustering of
-  matches inside the two SMWPM decoders.  Consequently the full property
+  NOT MODELLED IN THIS FILE: the matching-graph construction, the minimum-weight perfect matching (`gt.mwpm`) and the
+  clustering of matches inside the two SMWPM decoders.  Here the full property
 
-    STATED, NOT PROVED:
+    STATED, NOT PROVED (in this file):
       for every reachable `rows`, `ftpOk S rows (decode_ftp code T rows …).recovery = true`
       for `RotatedPlanarSMWPMDecoder` and `RotatedToricSMWPMDecoder`
 
-  is reduced here (`compose_toric_ok_iff`, `compose_planar_ok_iff`) to the statement that the cluster stage
-  neutralises the residual cluster syndrome left by the symmetry stage; that statement is what is explored.
+  is reduced (`compose_toric_ok_iff`, `compose_planar_ok_iff`) to the statement that the cluster stage neutralises the
+  residual cluster syndrome left by the symmetry stage.
+
+  AUDIT (status of the item above): NOW PROVED, elsewhere.  The graph construction and the clustering are modelled in
+  Model/Smwpm.lean (matchings as parameters; `gt.mwpm` itself stays outside, C13) and
+  * Props/C03/Smwpm.lean `ftp_rotated_planar_returns_to_codespace`, `ftp_rotated_toric_returns_to_codespace`,
+    `ideal_rotated_planar_returns_to_codespace`, `ideal_rotated_toric_returns_to_codespace` prove `ftpOk` (and
+    "recovery ⊕ total error commutes with every stabilizer") for all sizes, all `T ≥ 1`, all step errors and flip
+    patterns, for ANY perfect matchings of the modelled graphs (`matchingsOk`);
+  * such matchings exist for every `Ftp.reachable` array, and every maximum-cardinality choice succeeds:
+    Props/C02/SmwpmExists.lean `smwpm_planar_never_fails` (finite bias, `p ≠ 0`: every array),
+    Props/C02/SmwpmExists2.lean `smwpm_toric_never_fails_finite_bias`, `smwpm_*_never_fails_infinite_bias` (Y-only
+    support), `smwpm_*_never_fails_p_zero`, `smwpm_*_max_cardinality_*`; the toric `assert` never fires:
+    Props/C02/SmwpmEven.lean `smwpm_toric_assert_never_fires_reachable`;
+  * the second sentence of C03 (two time parities, all-zero unless a time-like failure is declared, never for one
+    step) as a function of the matchings: Props/C03/TParity.lean.
+  Genuinely open: only "`gt.mwpm` returns a maximum-cardinality matching" (C13's statement, a hypothesis there).
 -/
 import QecVerif.Model.Ftp
 import QecVerif.Lemmas.Ftp
